@@ -21,7 +21,7 @@ def read_xwaves(filename):
     """
     # Load and construct dataset
     data = loadmat(filename)
-    time = [datetime.datetime(*row) for row in data["td"]]
+    time = [datetime.datetime(*map(int, row)) for row in data["td"]]
     freq = data["fd"].ravel()
     dir = data["thetad"].ravel()
     dset = xr.DataArray(
